@@ -1123,6 +1123,9 @@ func main() {
 		e.run(d, true)
 	}
 
+	// 4b. the functions called through schemas (lenient / strict twins, templates)
+	e.schemaStream(r, o.Count(216, 6000))
+
 	// 5. empty and invalid inputs
 	bads := []string{"not a date", "2020-13-01", "2020-02-30T00:00:00Z", "12:34:56", "2020-01-01T25:00:00", "20200101T1234567", "2021-02-29", "1/1/20 10:00", "2020-01-01T00:00:00+25:00x"}
 	for _, from := range []string{"", "America/New_York", " "} {
@@ -1147,9 +1150,18 @@ func main() {
 	for _, u := range []string{"SECOND", "MILLISECOND", "MINUTE", ""} {
 		e.run(caseDesc{Fn: "fromepoch", Epoch: "", Unit: u, ExpectEmpty: true}, false)
 		e.run(caseDesc{Fn: "fromepoch", Epoch: "", Unit: u, TZ: []string{"Asia/Tokyo"}, ExpectEmpty: true}, false)
-		for _, b := range []string{"abc", "1.5", " 12", "9223372036854775808", "-9223372036854775809", "0x10", "1e3"} {
+		for _, b := range []string{"abc", "1.5", " 12", "9223372036854775808", "-9223372036854775809", "0x10", "1e3",
+			"0x5f5e100", "0X1F", "1_600_000_000", "0b101", "0o17", "1600000000 ", "١٦٠٠"} {
 			e.run(caseDesc{Fn: "fromepoch", Epoch: b, Unit: u, ExpectError: true}, false)
 		}
+	}
+	// decimal only: zero-padded and explicitly signed numbers are decimal numbers, not octal
+	for _, p := range []struct {
+		s string
+		n int64
+	}{{"0000001600000000", 1600000000}, {"+1600000000", 1600000000}, {"-0001", -1}, {"017", 17}, {"0000000000", 0}, {"00001600000089", 1600000089}, {"-00", 0}} {
+		e.run(caseDesc{Fn: "fromepoch", Epoch: p.s, Unit: "SECOND", ExpectInstant: i64(p.n), ExpectOffset: i64(0)}, true)
+		e.run(caseDesc{Fn: "fromepoch", Epoch: p.s, Unit: "MILLISECOND", ExpectInstant: i64(floorDiv(p.n, 1000)), ExpectOffset: i64(0)}, true)
 	}
 	e.run(caseDesc{Fn: "fromepoch", Epoch: "0", Unit: "MINUTE", ExpectError: true}, false)
 	e.run(caseDesc{Fn: "fromepoch", Epoch: "0", Unit: "SECOND", TZ: []string{"UTC", "UTC"}, ExpectError: true}, false)
@@ -1193,6 +1205,13 @@ func (e *env) replayFile(path string, corpus bool) {
 	}
 	var f struct {
 		Case caseDesc `json:"case"`
+	}
+	var sf struct {
+		Case schemaCase `json:"case"`
+	}
+	if json.Unmarshal(raw, &sf) == nil && sf.Case.Fn == "schema" {
+		e.runSchema(sf.Case)
+		return
 	}
 	if err := json.Unmarshal(raw, &f); err != nil || f.Case.Fn == "" {
 		fmt.Fprintln(os.Stderr, "no C19 case in", path, err)
